@@ -2,8 +2,11 @@ package memberlist
 
 import (
 	"hash/crc32"
+	"sort"
 	"strings"
 )
+
+func sortStrs(x []string) { sort.Strings(x) }
 
 func crc32sum(b []byte) uint32        { return crc32.ChecksumIEEE(b) }
 func lastIndex(s, sub string) int     { return strings.LastIndex(s, sub) }
